@@ -47,8 +47,8 @@ TurnPosI(s) ==
       cutStarts == both /\ st0[Len(st0)] > en0[Len(en0)]
       en == IF cutEnds THEN Tail(en0) ELSE en0
       st == IF cutStarts THEN FrontOf(st0) ELSE st0
-      plateau(i) == both /\ \E k \in 1..Len(st) : st[k] = i /\ d[st[k]] * d[en[k] + 1] < 0
-      peak(i) == d[i] * d[i+1] < 0
+      plateau(i) == both /\ \E k \in 1..Len(st) : st[k] = i /\ Sgn(d[st[k]]) * Sgn(d[en[k] + 1]) < 0
+      peak(i) == Sgn(d[i]) * Sgn(d[i+1]) < 0      \* the code multiplies the differences; signs only here, so that TLC's 32-bit integers carry large sample values
   IN  MapSeq(Positions(n - 1, LAMBDA i : peak(i) \/ plateau(i)), LAMBDA i : i + 1)
 
 (* NaN handling of find_turns: NaN is the distinguished value NaN; the      *)
